@@ -56,6 +56,13 @@ def to_np(a):
     return np.asarray(a)
 
 
+def sel_to_ns(sel, ns):
+    """A selector (slice / boolean mask / index array) in the array namespace `ns`."""
+    if isinstance(sel, slice):
+        return sel
+    return get_xp(ns).asarray(np.asarray(sel))
+
+
 def width_of(a) -> int:
     if a is None:
         return 0
